@@ -54,6 +54,10 @@ def gen_mp_spec(rng, thorough=False):
 			pol = {'t': 'rQ', 'a': rng.randint(2, 8), 'b': rng.randint(2, 9)}
 		fprods.append({'index': 100 + i, 'bom': bom, 'policy': pol, 'initIL': rng.choice([None, rng.randint(0, 15)]),
 					   'demand': [rng.randint(0, 9) for _ in range(rng.randint(2, 8))], 'h': rng.choice([1, 2]), 'p': rng.choice([3, 8])})
+	# a multi-sourced product must really be a raw material of the factory (otherwise one of its suppliers has a BOM relation
+	# through another product and the other only the default one: a degenerate mix outside the documented use)
+	if msrc is not None and not any(b[1] == msrc for fp in fprods for b in fp['bom']):
+		fprods[0]['bom'].append((sup[0]['label'], msrc, rng.choice([1, 2, 3])))
 	T = rng.randint(4, 30 if thorough else 14)
 	dis = None
 	if rng.random() < .4:
